@@ -74,6 +74,9 @@ class Ctx:
             if v["key"] == key:
                 v["count"] = v.get("count", 1) + 1
                 return True
+        if C._PRIOR.get("last") and isinstance(replay, dict):
+            what += " [the model object last fitted had a call history: fitted on unrelated data of the same structure and queried before]"
+            replay = dict(replay, model_object_had_call_history=True)
         self.violations.append(dict(key=key, what=what, replay=C.jsonable(replay), has_input=has_input, count=1))
         return True
 
@@ -277,7 +280,10 @@ def run_check(pid, tier, seed, replay=None):
     # correspondence + oracles
     try:
         if replay:
-            mod.replay(ctx, json.load(open(replay)))
+            rp_ = json.load(open(replay))
+            if (rp_.get("replay") or {}).get("model_object_had_call_history") if isinstance(rp_.get("replay"), dict) else False:
+                os.environ["VERIF_PRIOR_USE_EVERY"] = "1"
+            mod.replay(ctx, rp_)
         else:
             mod.run(ctx)
     except Exception as e:
@@ -290,6 +296,9 @@ def run_check(pid, tier, seed, replay=None):
         except Exception as e:
             traceback.print_exc()
             ctx.notes.append("search crashed: %r" % (e,))
+    pu = C.prior_use_counts()
+    if pu["objects_seen"]:
+        ctx.extra["model_objects_given_a_call_history_before_their_first_fit"] = pu
     return finish(ctx, mod)
 
 
